@@ -1331,6 +1331,15 @@ def str_method(eng, recv, name, args, kwargs, st):
             raise Unsupported("startswith with bounds")
         (a,) = args
         alts = list(a) if isinstance(a, tuple) else [a]
+        if name == "endswith" and not isinstance(recv, str) and all(isinstance(x, str) for x in alts):
+            from . import structstr
+
+            suf = structstr.literal_suffix(structstr.parts(s))
+            if suf:
+                if any(x and suf.endswith(x) for x in alts):
+                    return ok(True, st)
+                if all(x and (len(x) <= len(suf) or not x.endswith(suf)) for x in alts):
+                    return ok(False, st)  # every alternative already disagrees with the literal end of the text
         pre = smt.literal_prefix(s)
         if name == "startswith" and pre is not None and all(isinstance(x, str) for x in alts):
             if any(pre.startswith(x) for x in alts):
@@ -1349,11 +1358,26 @@ def str_method(eng, recv, name, args, kwargs, st):
             raise Unsupported("strip with symbolic chars")
         if chars == "":
             return ok(recv, st)
-        if name == "lstrip" and not isinstance(recv, str):
-            pre = smt.literal_prefix(s)
+        if not isinstance(recv, str):
+            # on a text with a literal skeleton the literal ends are stripped literally; when a literal character that is kept is reached the result is exact
+            from . import structstr
+
             stripped = chars if chars is not None else smt.PY_WS + "\x1c\x1d\x1e\x1f\x85\xa0"
-            if pre and pre[0] not in stripped:
-                return ok(recv, st)  # the text opens with a literal character that is not stripped: lstrip is the identity
+            ps = structstr.parts(s)
+            exact_l = exact_r = False
+            if name in ("lstrip", "strip"):
+                ps, exact_l = structstr.lstrip_parts(ps, stripped)
+            if name in ("rstrip", "strip"):
+                ps, exact_r = structstr.rstrip_parts(ps, stripped)
+            if (name == "lstrip" and exact_l) or (name == "rstrip" and exact_r) or (name == "strip" and exact_l and exact_r):
+                r = structstr.build(ps)
+                return ok(r if isinstance(r, str) else Sym(r, "str"), st)
+            r = structstr.build(ps)
+            if isinstance(r, str):
+                return ok(getattr(r, name)(chars), st)
+            # one end is exact (already removed above), the other goes through the skolem model on what is left
+            rest = "rstrip" if (name == "strip" and exact_l) else "lstrip" if (name == "strip" and exact_r) else name
+            return ok(strip_model(eng, Sym(r, "str"), chars, rest, st), st)
         return ok(strip_model(eng, recv, chars, name, st), st)
     if name in ("isdecimal", "isdigit"):
         eng.assumed.add("str.isdecimal/isdigit: ASCII digits only (non-ASCII digits are outside the proof)")
